@@ -6,6 +6,9 @@ import DendroModel.Theory.C08Spec
 import DendroModel.Theory.C08Len
 import DendroModel.Theory.C08Cut
 import DendroModel.Theory.C08Gen
+import DendroModel.Theory.C08ExtractG
+import DendroModel.Theory.C08Labels
+import DendroModel.Theory.C08Upd
 /-! C08 — property theorems.  Every `theorem` directly in `namespace DendroModel.C08` of this file is an obligation.
 They are statements about the definitions `drv_c08` executes (`Model/C08.lean`): the mechanisms as the code runs them
 (`pruneTaxa` = strike pass + leaf-removal loop + `T.sup`; `filterLeaves`; `retainTaxa`; `extractTree` = memo-driven fold over
@@ -283,6 +286,211 @@ theorem restrict_pathlen_exec (keep p q : Acc) (hp : ∀ i x, p i x = true → k
   rw [distF_val p q r hwr, distF_val p q t hw]
   exact dist_restrict keep p q hp hq sup t hw r hr
 
+/-! ### both filter flags (`is_apply_filter_to_leaf_nodes`, `is_apply_filter_to_internal_nodes`) -/
+
+/-- `Node.extract_subtree` / `Tree.extract_tree` for ANY setting of the two filter flags: the memo-driven fold computes the
+    recursive specification `exSpec` (a rejected node goes with everything below it, an internal node without surviving child
+    goes, single children are merged when asked), and raises `ValueError` exactly when the seed itself is rejected by the
+    filter, `SeedNodeDeletionException` exactly when the seed passes but nothing below it survives -/
+theorem extract_flags_eq_spec (acc : Acc) (fl fi sup : Bool) (t : T) (hnd : (ids t).Nodup) :
+    extractTree acc fl fi sup t =
+      match exSpec acc fl fi sup t with
+      | some r => .ok r
+      | none => exErr acc fl fi t :=
+  extractG_full acc fl fi sup t hnd
+
+/-- with the internal-node filter off, the two-flag specification is the induced subtree -/
+theorem exSpec_without_internal_filter (acc : Acc) (fl sup : Bool) (t : T) :
+    exSpec acc fl false sup t = restrict (leafKeep fl acc) sup t :=
+  exSpec_fi_false acc fl sup t
+
+/-- `prune_taxa` for ANY setting of its two flags on ANY tree (taxa on internal nodes included): the post-order strike pass,
+    then the `while` loop, is the recursive strike followed by the recursive specification `restrictA` of "drop taxon-less
+    leaves until none is left", then suppression -/
+theorem prune_flags_eq_spec (P : Nat → Bool) (fl fi sup : Bool) (t : T) :
+    pruneTaxa P fl fi sup t = (strike P fl fi t).bind (fun t1 => (restrictA hasTaxon t1).map (supIf sup)) := by
+  unfold pruneTaxa
+  cases hs : strike P fl fi t with
+  | none => rfl
+  | some t1 =>
+    simp only [Option.bind_some]
+    exact filter_eq_restrictA hasTaxon sup t1
+
+mutual
+/-- on a tree whose taxa sit on leaves the internal-node flag of `prune_taxa` changes nothing -/
+theorem strike_internal_flag_irrelevant (P : Nat → Bool) (fl fi : Bool) : ∀ t : T, InnerNoTaxon t →
+    strike P fl fi t = strike P fl false t
+  | .node i x l s [], _ => by simp [strike, strikeL]
+  | .node i x l s (c :: cs), h => by
+      simp only [InnerNoTaxon] at h
+      have hx : x = none := h.1 (by simp)
+      simp only [strike, strikeL_internal_flag_irrelevant P fl fi (c :: cs) h.2, hx, inP, Bool.and_false]
+theorem strikeL_internal_flag_irrelevant (P : Nat → Bool) (fl fi : Bool) : ∀ cs : List T, InnerNoTaxonL cs →
+    strikeL P fl fi cs = strikeL P fl false cs
+  | [], _ => rfl
+  | c :: cs, h => by
+      simp only [InnerNoTaxonL] at h
+      simp only [strikeL, strike_internal_flag_irrelevant P fl fi c h.1, strikeL_internal_flag_irrelevant P fl fi cs h.2]
+end
+
+/-- hence `prune_taxa(..., is_apply_filter_to_internal_nodes=True)` still yields the induced subtree there -/
+theorem prune_internal_flag_eq_restrict (P : Nat → Bool) (fi sup : Bool) (t : T) (h : InnerNoTaxon t) :
+    pruneTaxa P true fi sup t = restrict (keepTaxa (fun k => !P k)) sup t := by
+  rw [← prune_eq_restrict P sup t h]
+  unfold pruneTaxa
+  rw [strike_internal_flag_irrelevant P true fi t h]
+
+/-! ### by-label entry points -/
+
+/-- `TaxonNamespace.get_taxa(labels)` as the by-label entry points use it: it collects exactly the members whose label one of
+    the given labels names under the namespace's case rule, each once -/
+theorem get_taxa_spec (cs : Bool) (ns : Ns) (labels : List String) :
+    (∀ k, k ∈ getTaxa cs ns labels ↔ ∃ m ∈ ns, m.1 = k ∧ ∃ g ∈ labels, labelMatch cs m.2 g = true) ∧
+    (getTaxa cs ns labels).Nodup :=
+  ⟨mem_getTaxa cs ns labels, getTaxa_nodup cs ns labels⟩
+
+/-- with distinct accession bits, a taxon is `named` iff THE label it carries matches one of the given labels -/
+theorem named_iff_label (cs : Bool) (ns : Ns) (labels : List String) (k : Nat) (lab : String)
+    (hnd : (ns.map (·.1)).Nodup) (hm : (k, lab) ∈ ns) :
+    named cs ns labels k = labels.any (fun g => labelMatch cs lab g) :=
+  named_of_label cs ns labels k lab hnd hm
+
+/-- (d) by label: `prune_taxa_with_labels`, `retain_taxa_with_labels`, `extract_tree_with_taxa_labels` and
+    `extract_tree_without_taxa_labels`, each resolving the labels through the namespace, yield the subtree induced by the leaves
+    whose labels are not named (prune / without) resp. named (retain / with) — however many taxa share a label or differ from
+    it only in case -/
+theorem labels_variants_eq_restrict (cs : Bool) (ns : Ns) (labels : List String) (sup : Bool) (t : T)
+    (h : InnerNoTaxon t) (hnd : (ids t).Nodup) (hl : ∀ lf ∈ t.leaves, lf.taxon ≠ none)
+    (hns : ∀ lf ∈ t.leaves, ∀ k, lf.taxon = some k → k ∈ ns.map (·.1)) :
+    pruneWithLabels cs ns labels sup t = restrict (keepTaxa (fun k => !named cs ns labels k)) sup t ∧
+    retainWithLabels cs ns labels sup t = restrict (keepTaxa (named cs ns labels)) sup t ∧
+    (extractWithLabels cs ns labels sup t).toOption = restrict (keepTaxa (named cs ns labels)) sup t ∧
+    (extractWithoutLabels cs ns labels sup t).toOption = restrict (keepTaxa (fun k => !named cs ns labels k)) sup t := by
+  have e : (fun k => (getTaxa cs ns labels).contains k) = named cs ns labels := by
+    funext k; exact getTaxa_contains cs ns labels k
+  have e' : (fun k => !(getTaxa cs ns labels).contains k) = (fun k => !named cs ns labels k) := by
+    funext k; rw [getTaxa_contains]
+  refine ⟨?_, ?_, ?_, ?_⟩
+  · unfold pruneWithLabels; rw [e, prune_eq_restrict _ sup t h]
+  · unfold retainWithLabels; rw [e]; exact (retain_eq_prune_compl _ _ sup t h hns).2
+  · unfold extractWithLabels; rw [e, extract_eq_restrict _ sup t hnd, taxonFilter_restrict _ sup t hl]
+  · unfold extractWithoutLabels; rw [e', extract_eq_restrict _ sup t hnd, taxonFilter_restrict _ sup t hl]
+
+/-- (d) by label: pruning the labels `gs` and retaining the labels `hs` agree whenever, on the leaves of the tree, `hs` names
+    exactly the taxa `gs` does not name (complementary label lists) -/
+theorem labels_prune_retain_agree (cs : Bool) (ns : Ns) (gs hs : List String) (sup : Bool) (t : T)
+    (h : InnerNoTaxon t) (hns : ∀ lf ∈ t.leaves, ∀ k, lf.taxon = some k → k ∈ ns.map (·.1))
+    (hc : ∀ lf ∈ t.leaves, ∀ k, lf.taxon = some k → named cs ns hs k = !named cs ns gs k) :
+    pruneWithLabels cs ns gs sup t = retainWithLabels cs ns hs sup t := by
+  have e1 : (fun k => (getTaxa cs ns gs).contains k) = named cs ns gs := by funext k; exact getTaxa_contains cs ns gs k
+  have e2 : (fun k => (getTaxa cs ns hs).contains k) = named cs ns hs := by funext k; exact getTaxa_contains cs ns hs k
+  unfold pruneWithLabels retainWithLabels
+  rw [e1, e2, prune_eq_restrict _ sup t h, (retain_eq_prune_compl _ _ sup t h hns).2]
+  apply restrict_congr
+  intro lf hlf
+  cases hx : lf.taxon with
+  | none => rfl
+  | some k =>
+    have := hc lf hlf k hx
+    show (!named cs ns gs k) = named cs ns hs k
+    rw [this]
+
+/-! ### `update_bipartitions=True` -/
+
+/-- pruning / retaining / filtering with `update_bipartitions=True` (any rooting state) = the fresh C01 encoding
+    (`encode_bipartitions` with the caller's suppress flag) of the induced subtree: tree after the encoding's side effects and
+    the (leafset, split) list alike -/
+theorem upd_eq_fresh_encoding (rooted : Option Bool) (ns : List Nat) (K : Nat → Bool) (sup : Bool) (t : T) (h : InnerNoTaxon t)
+    (hns : ∀ lf ∈ t.leaves, ∀ k, lf.taxon = some k → k ∈ ns) :
+    pruneTaxaUpd rooted (fun k => !K k) sup t = (restrict (keepTaxa K) sup t).map (reencode rooted sup) ∧
+    retainTaxaUpd rooted ns K sup t = (restrict (keepTaxa K) sup t).map (reencode rooted sup) ∧
+    filterLeavesUpd rooted (keepTaxa K) sup t = (restrict (keepTaxa K) sup t).map (reencode rooted sup) := by
+  have r := retain_eq_prune_compl ns K sup t h hns
+  refine ⟨?_, ?_, ?_⟩
+  · unfold pruneTaxaUpd; rw [← r.1, r.2]
+  · unfold retainTaxaUpd; rw [r.2]
+  · unfold filterLeavesUpd
+    rw [← filter_eq_restrict (keepTaxa K) (fun _ => rfl) sup t h, Option.map_map]
+    rfl
+
+/-- on a ROOTED tree the re-encoding leaves the induced subtree exactly as it is (nothing is collapsed; nothing is left to
+    suppress, or suppression was declined) and lists one (leafset, split = leafset) pair per node, in post-order -/
+theorem upd_rooted_encoding (keep : Acc) (sup : Bool) (t r : T) (hr : restrict keep sup t = some r) :
+    reencode (some true) sup r = (r, r.masksPost.map (fun (m : Nat) => (m, (m : Int)))) :=
+  reencode_rooted keep sup t r hr
+
+/-- hence (a) for the encoding itself: after pruning a rooted tree with `update_bipartitions=True`, the leafsets in
+    `bipartition_encoding` are exactly the non-empty restrictions `C ∩ K` of the original clades -/
+theorem upd_rooted_leafsets (Km : Nat) (sup : Bool) (t : T) (h : InnerNoTaxon t) (r : T) (enc : List (Nat × Int))
+    (hp : pruneTaxaUpd (some true) (fun k => !Km.testBit k) sup t = some (r, enc)) (m : Nat) :
+    m ∈ enc.map (·.1) ↔ ∃ c ∈ t.masksPost, m = c &&& Km ∧ m ≠ 0 := by
+  unfold pruneTaxaUpd at hp
+  have e : (fun k => !(!Km.testBit k)) = (fun k => Km.testBit k) := by funext k; simp
+  rw [prune_eq_restrict _ sup t h, e] at hp
+  cases hr : restrict (keepTaxa (fun k => Km.testBit k)) sup t with
+  | none => rw [hr] at hp; cases hp
+  | some r0 =>
+    rw [hr] at hp
+    simp only [Option.map_some, Option.some.injEq] at hp
+    rw [upd_rooted_encoding _ sup t r0 hr] at hp
+    simp only [Prod.mk.injEq] at hp
+    rw [← hp.2, List.map_map]
+    have : (fun x : Nat × Int => x.1) ∘ (fun (m : Nat) => (m, (m : Int))) = id := by funext m; rfl
+    rw [this, List.map_id]
+    exact restrict_clades Km sup t r0 hr m
+
+/-- `prune_subtree(node, update_bipartitions=True)` on a rooted tree: the re-encoding leaves the pruned tree as it is and lists
+    one (leafset, split = leafset) pair per node of it -/
+theorem upd_subtree_rooted (i : Nat) (sup : Bool) (t sub : T) (hnd : (ids t).Nodup) (hne : t.id ≠ i)
+    (hf : t.find? i = some sub) (hk : (cut i t).cs.isEmpty = false) :
+    pruneSubtreeUpd (some true) i sup t =
+      (pruneSubtree i sup t, (pruneSubtree i sup t).masksPost.map (fun (m : Nat) => (m, (m : Int)))) := by
+  have h := prune_subtree_eq_restrict i sup t sub hnd hne hf
+  rw [hk] at h
+  simp only [Bool.false_eq_true, if_false] at h
+  exact upd_rooted_encoding _ sup t _ h
+
+/-- `Node.extract_subtree` started at any non-seed node, any setting of the two filter flags: the clone is the two-flag
+    specification applied to the subtree below that node (`none` ⇔ the call raises) -/
+theorem extract_node_flags_eq_spec (acc : Acc) (fl fi sup : Bool) (t sub : T) (i : Nat) (hnd : (ids t).Nodup) (hne : i ≠ t.id)
+    (hf : t.find? i = some sub) :
+    (extractNode acc fl fi sup t i).toOption = exSpec acc fl fi sup sub := by
+  have hs : (ids sub).Nodup := List.Sublist.nodup (find_sublist i t sub hf) hnd
+  have hb : (i == t.id) = false := by simpa using hne
+  unfold extractNode
+  rw [if_neg (by simp [hb])]
+  simp only [hf]
+  rw [extract_flags_eq_spec acc fl fi sup sub hs]
+  cases exSpec acc fl fi sup sub with
+  | some r => rfl
+  | none =>
+    obtain ⟨j, x, l, s, cs⟩ := sub
+    have he : exErr acc fl fi (T.node j x l s cs) = .valueError ∨ exErr acc fl fi (T.node j x l s cs) = .seedDeletion := by
+      simp only [exErr]
+      by_cases hc : ((if cs.isEmpty then fl else fi) && !acc j x) = true
+      · exact Or.inl (if_pos hc)
+      · exact Or.inr (if_neg hc)
+    rcases he with he | he <;> rw [he] <;> rfl
+
+/-! ### well-formed lengths are not an assumption about driver inputs -/
+
+/-- every tree the driver parses from a protocol line has well-formed lengths (non-zero denominators) -/
+theorem parsed_lengths_wf (toks : List String) (t : T) (rest : List String) (h : parseTree toks = some (t, rest)) : LensWF t :=
+  parseTree_lensWF toks t rest h
+
+/-- and so has every induced subtree of a tree with well-formed lengths -/
+theorem restrict_lengths_wf (keep : Acc) (sup : Bool) (t r : T) (hw : LensWF t) (hr : restrict keep sup t = some r) : LensWF r :=
+  restrict_lensWF keep sup t r hw hr
+
+/-- (c) for driver inputs, with no side condition left: the executable path lengths of the induced subtree and of the parsed
+    tree agree in ℚ -/
+theorem restrict_pathlen_parsed (keep p q : Acc) (hp : ∀ i x, p i x = true → keep i x = true)
+    (hq : ∀ i x, q i x = true → keep i x = true) (sup : Bool) (toks rest : List String) (t r : T)
+    (hparse : parseTree toks = some (t, rest)) (hr : restrict keep sup t = some r) :
+    (distF p q r).map oval = (distF p q t).map oval :=
+  restrict_pathlen_exec keep p q hp hq sup t r (parseTree_lensWF toks t rest hparse)
+    (restrict_lensWF keep sup t r (parseTree_lensWF toks t rest hparse) hr) hr
+
 /-! ### the hypotheses are satisfiable, the statements are not vacuous -/
 def demo : T :=
   .node 0 none (some ⟨9, 1⟩) none
@@ -310,6 +518,13 @@ example : (restrictA (fun i _ => i == 4 || i == 2) demo).map T.render = some "(0
 example : (filterLeaves (fun i _ => i == 4 || i == 2) false false demo).map (·.2) = some [3, 5, 7, 8] := by decide
 example : (match extractTree (fun _ _ => false) true false true demo with | .seedDeletion => true | _ => false) = true := by decide
 example : (allDists demo).length = 10 := by decide
+example : (pruneTaxaUpd (some true) (fun k => !(k == 1 || k == 2)) true demo).map (fun r => (r.1.render, r.2))
+    = some ("(0 - 9 (3 1 5) (5 2 12))", [(2, 2), (4, 4), (6, 6)]) := by decide
+example : (exSpec (fun i _ => i != 4) true true true demo).map T.render = some "(1 - 12 (2 0 1) (3 1 2))" := by decide
+example : getTaxa false [(0, "A"), (1, "a"), (2, "B"), (3, "A")] ["b", "A", "zz"] = [2, 0, 1, 3] := by decide +kernel
+example : getTaxa true [(0, "A"), (1, "a"), (2, "B"), (3, "A")] ["b", "A"] = [0, 3] := by decide
+example : (pruneWithLabels true [(0, "A"), (1, "A"), (2, "B"), (3, "C"), (4, "C")] ["A", "C"] true demo).map T.render
+    = some "(5 2 21)" := by decide
 example : ((extractNode (fun i _ => i != 3) true false true demo 1).toOption).map T.render = some "(2 0 4)" := by decide
 
 end DendroModel.C08
